@@ -479,14 +479,31 @@ def _cse_bookkeeping(ctx, model):
     # a copy that inherits the assignment list must also inherit the
     # expression->name map, else an already hoisted wrapper is assigned again
     carries = False
+    shared = False
     if cp is not None:
-        src = ast.unparse(cp.node)
-        carries = "cse_to_name" in src
-    ctx.ob("S/c-cse/copy/carries-expression-map", carries, loc,
-           "copy() carries the expression->name map" if carries else
-           "CCodeMapper.copy() hands the assignment list to the copy but not the "
-           "expression->name map, so a wrapper hoisted before the copy is "
-           "assigned a second time under a new name when the copy meets it")
+        for ps in summarize(cp.node, node_param=False):
+            for e in ps.events:
+                if e.kind == "attrwrite" and e.name == "cse_to_name":
+                    v = e.value
+                    if v == ("self", "cse_to_name"):
+                        shared = True        # alias of the original's dict
+                    elif contains(v, lambda t: t == ("self", "cse_to_name")):
+                        carries = True       # a new mapping built from it
+            # or passed to the constructor
+            if ps.term == "return" and contains(
+                    ps.retval, lambda t: t == ("self", "cse_to_name")) and \
+                    ps.retval[0] == "call":
+                carries = True
+    ctx.ob("S/c-cse/copy/carries-expression-map", carries and not shared, loc,
+           "copy() carries the expression->name map (as a new mapping)"
+           if carries and not shared else
+           ("CCodeMapper.copy() makes the copy share the original's cse_to_name "
+            "dict while each keeps its own assignment list: a wrapper hoisted by "
+            "one of them is 'found' by the other, which then uses a name it never "
+            "assigned" if shared else
+            "CCodeMapper.copy() hands the assignment list to the copy but not the "
+            "expression->name map, so a wrapper hoisted before the copy is "
+            "assigned a second time under a new name when the copy meets it"))
 
 
 def _mentions_param(v, param):
